@@ -8,8 +8,8 @@
     `Gama.LS.fieldScalar SqrtField.sqrt`: `sqrtFnOfSqrtField` is the `SqrtFn` carrier that makes the
     three coincide definitionally; it is lawful (`lawfulSqrt_of_sqrtField`), so `SqrtExactP p`
     holds for every problem.
-  * `Svd.wTol_nonneg`: the tolerance `W_tol` the model of `set_inv_W` computes is non-negative in
-    every ordered field (`Svd.epsLoop_nonneg`).
+  * `Svd.wTol_nonneg`, `Svd.wTol_le`: the tolerance `W_tol` the model of `set_inv_W` computes satisfies
+    `0 ≤ W_tol ≤ 1/100` in every ordered field (in exact arithmetic the bisection only halves `10⁻⁵`).
   * `svdSolve_isLS`: `svdSolve` (decomposition by the transliterated Golub–Reinsch iteration, then
     the post-decomposition model) answers with a least-squares solution whenever the factors the
     iteration returned satisfy the certificate `SvdCert` (at the model's own tolerance `wTol`).
@@ -77,6 +77,41 @@ theorem wTol_nonneg : (0 : K) ≤ (wTol : K) := by
   show (0 : K) ≤ ((1000 : Nat) : K)
   positivity
 
+theorem epsLoop_le : ∀ (fuel : Nat) (emin emax eps : K), emin ≤ emax → eps ≤ emax →
+    epsLoop fuel emin emax eps ≤ emax
+  | 0, _, _, _, _, h => h
+  | fuel + 1, emin, emax, eps1, h1, _ => by
+    have h2' : (0 : K) < (Scalar.ofNat 2 : K) := by
+      show (0 : K) < ((2 : Nat) : K)
+      norm_num
+    have he : (emin + emax) / Scalar.ofNat 2 ≤ emax := by
+      rw [div_le_iff₀ h2']
+      show emin + emax ≤ emax * ((2 : Nat) : K)
+      push_cast; linarith
+    have he' : emin ≤ (emin + emax) / Scalar.ofNat 2 := by
+      rw [le_div_iff₀ h2']
+      show emin * ((2 : Nat) : K) ≤ emin + emax
+      push_cast; linarith
+    unfold epsLoop
+    simp only []
+    split
+    · split
+      · exact epsLoop_le fuel _ _ _ he he
+      · exact le_trans (epsLoop_le fuel _ _ _ he' le_rfl) he
+    · exact he
+
+theorem ofSci_1e5 : (Scalar.ofSci 1 true 5 : K) = 1 / 100000 := by
+  show (OfScientific.ofScientific 1 true 5 : K) = 1 / 100000
+  norm_num
+
+/-- `W_tol ≤ 1/100` (in exact arithmetic the bisection only halves `10⁻⁵`) -/
+theorem wTol_le : (wTol : K) ≤ 1 / 100 := by
+  unfold wTol
+  have h := epsLoop_le (K := K) 200 0 (Scalar.ofSci 1 true 5) (Scalar.ofSci 1 true 5) ofSci_nonneg le_rfl
+  rw [ofSci_1e5] at h ⊢
+  show ((1000 : Nat) : K) * _ ≤ _
+  push_cast
+  linarith
 theorem regOK_regOf {r : Reg} (h : RegOK r) : RegOK (AdjM.regOf r) := by
   cases r with
   | none => trivial
